@@ -320,15 +320,16 @@ def stmt_of(node):
     return n
 
 
-def conds_sym(chk: Check, ctx: FuncCtx, node, kinds=("if", "prior")):
-    """Path condition of a node as a list of (term, polarity)."""
+def conds_sym(chk: Check, ctx: FuncCtx, node, kinds=("if", "prior"), with_kind=False):
+    """Path condition of a node as a list of (term, polarity) [or (term, polarity, kind)]."""
     st = stmt_of(node)
     out = []
     for test, pol, ifstmt, kind in path_conditions(st, ctx.func):
         if kind not in kinds:
             continue
         at = ctx.cfg.node_of.get(ifstmt)
-        out.append((chk.R.expr(ctx, test, at), pol))
+        t = chk.R.expr(ctx, test, at)
+        out.append((t, pol, kind) if with_kind else (t, pol))
     return out
 
 
